@@ -28,7 +28,7 @@ CHECKS = {
              note=NOTE_A),
  "C04": dict(engine="B", technique="explicit-state BFS over edit/invocation histories on a real directory through the real CLI binary, with kill points at every command boundary, against a reference map fingerprint -> outcome of the last attempt",
              text="All histories up to depth 3 (quick) / 5 (thorough) over {edit, touch, add, remove source; remove generated file; run; run failing at command k; run killed (kill -9 of Task) at command boundary k; prompt declined/accepted; --dry; --status; --list-all --json; --force (ok/failing); run of a task sharing the state file} x method {checksum,timestamp} x task shapes {plain, generates, two generates entries, prompt, colliding names, namespaced+label, deps, differing global method, command rewrites one of its sources}; states deduplicated on (contents, mtime order, model). Oracle: a skipped run implies the last attempt at the present fingerprint succeeded and generates exist.",
-             note="Bounded depth; crashes are process kills at command boundaries (no torn writes / power loss); cancellation by a sibling failure and a failure inside a called shared task are covered by two controlled-scheduler families (cancelled-by-sibling/*, last-command-calls-failed-shared-task/*) whose every resulting directory is fed to a follow-up run; known findings (a:b / a-b share a state file; timestamp + generates after a failed or killed run) are listed in known_findings.jsonl."),
+             note="Bounded depth; crashes are process kills at command boundaries (no torn writes / power loss); cancellation by a sibling failure and a failure inside a called shared task are covered by two controlled-scheduler families (cancelled-by-sibling/*, last-command-calls-failed-shared-task/*, cancelled-inside-an-ignore_error-command/*, two-dependents-of-a-rerunning-fingerprinted-dep/*) whose every resulting directory is fed to a follow-up run; known findings (a:b / a-b share a state file; timestamp + generates after a failed or killed run or while another instance is still running) are listed in known_findings.jsonl."),
  "C05": dict(engine="B", technique="explicit-state BFS over file-operation/run histories through the real CLI binary against a reference matcher + fingerprint model",
              text="All histories up to depth 3/5 over {edit matched/nested/excluded/deeply-excluded/unmatched file, touch, add, remove, rename, move to sub-directory, add excluded, remove generated, toggle status flag, edit the seed a dependency regenerates a source from, run, --force} x method x shapes {plain, generates, two generates, generator that keeps an existing output, status, exclude-before-include, dep-regenerates-source, task in an included Taskfile}; plus histories over {run a, run b, edit a, edit b} for one task definition with a templated label (one fingerprint per component); oracle in both directions (idempotence and sensitivity).",
              note="Bounded depth and file alphabet; mtimes are real (tick discipline), state key uses the order type of mtimes."),
